@@ -71,6 +71,12 @@ pub trait Gen: Sized {
 }
 
 fn small_len(label: &'static str) -> usize {
+    // occasionally a long value: lengths around powers of two up to 2^16, where an implementation
+    // that processes input in blocks has its block boundaries
+    if tape::w("len.long", 24) == 23 {
+        let k = 9 + tape::w("len.long.pow", 8) as u32; // 512 .. 65536
+        return ((1usize << k) + tape::w("len.long.pm", 5) as usize).saturating_sub(2);
+    }
     match tape::w(label, 8) {
         0 => 0,
         1 => 1,
